@@ -106,6 +106,13 @@ def handle (toks : List String) : String :=
     | some (lv, ln), some lo, some len =>
       if lo + len > 8 * ln then "ERR:oob" else showBits (bitsOf lv lo len)
     | _, _, _ => "bad-op"
+  | ["hastf", _var, l, lo, len] =>
+    match buf l, lo.toNat?, len.toNat? with
+    | some (lv, ln), some lo, some len =>
+      if lo + len > 8 * ln then "ERR:oob" else
+      let bs := bitsOf lv lo len
+      s!"{showBool (bs.any id)} {showBool (bs.any (!·))}"
+    | _, _, _ => "bad-op"
   | ["indices", _var, l, lo, len] =>
     match buf l, lo.toNat?, len.toNat? with
     | some (lv, ln), some lo, some len =>
@@ -129,13 +136,14 @@ def handle (toks : List String) : String :=
       showBool (bitsOf lv lo len == bitsOf rv ro len)
     | _, _, _, _, _ => "bad-op"
   | ["applybin", name, d, dofs, r, ro, len] =>
-    match bop name, buf d, dofs.toNat?, buf r, ro.toNat?, len.toNat? with
-    | some fb, some (dv, dn), some dofs, some (rv, rn), some ro, some len =>
+    match bop name, wop name, buf d, dofs.toNat?, buf r, ro.toNat?, len.toNat? with
+    | some fb, some fw, some (dv, dn), some dofs, some (rv, rn), some ro, some len =>
       if dofs + len > 8 * dn ∨ ro + len > 8 * rn then "ERR:oob" else
-      toHex (natToBytes dn (packBits ((List.range (8 * dn)).map (fun i =>
-        if dofs ≤ i ∧ i < dofs + len then fb (dv.testBit i) (rv.testBit (ro + (i - dofs)))
-        else dv.testBit i))))
-    | _, _, _, _, _, _ => "bad-op"
+      check (toHex (natToBytes dn (applyBinaryOp fw dv dofs rv ro len)))
+        (toHex (natToBytes dn (packBits ((List.range (8 * dn)).map (fun i =>
+          if dofs ≤ i ∧ i < dofs + len then fb (dv.testBit i) (rv.testBit (ro + (i - dofs)))
+          else dv.testBit i)))))
+    | _, _, _, _, _, _, _ => "bad-op"
   | ["applynot", d, dofs, len] =>
     match buf d, dofs.toNat?, len.toNat? with
     | some (dv, dn), some dofs, some len =>
